@@ -91,8 +91,60 @@ def verdict(rec):
     return None
 
 
+def _failing(res, kind):
+    for rec in res['probes']:
+        if rec['jedi'] is None or rec['gave_up']:
+            continue
+        v = verdict(rec)
+        if v is not None and v[2] == kind:
+            return rec
+    return None
+
+
+def shrink(src, info, kind, seconds=20.0):
+    """line-based delta debugging: the smallest program (within the time box) that still compiles,
+    still runs into a probe at which the property fails the same way, without jedi's statement
+    recursion guard or a give-up limit being involved.  Exactness claims do not survive line
+    removal, so only `missing` failures are shrunk."""
+    import time
+    if kind != 'missing':
+        return None
+    t0 = time.time()
+
+    def bad(lines):
+        text = '\n'.join(lines) + '\n'
+        try:
+            compile(text, '<shrink>', 'exec')
+            return _failing(analyse_source(text), kind) is not None
+        except Exception:
+            return False
+    lines = src.splitlines()
+    n = max(1, len(lines) // 2)
+    while time.time() - t0 < seconds:
+        changed = True
+        while changed and time.time() - t0 < seconds:
+            changed = False
+            i = 0
+            while i < len(lines) and time.time() - t0 < seconds:
+                cand = lines[:i] + lines[i + n:]
+                if cand and bad(cand):
+                    lines = cand
+                    changed = True
+                else:
+                    i += n if n > 2 else 1
+        if n == 1:
+            break
+        n = max(1, n // 2)
+    out = '\n'.join(lines) + '\n'
+    return out if out != src and bad(lines) else None
+
+
+_SHRUNK = [0]
+
+
 def analyse_flow(seed):
-    """worker entry: one generated program per seed"""
+    """worker entry: one generated program per seed (the first failing program of a worker is
+    also shrunk)"""
     import random
     from gen import flowprog as F
     rng = random.Random(seed)
@@ -102,6 +154,14 @@ def analyse_flow(seed):
         res = analyse_source(src, info)
         res['features'] = feats
         out.append(res)
+        if _SHRUNK[0] < 1 and not info.get('selfnest') and _failing(res, 'missing') is not None:
+            _SHRUNK[0] += 1
+            small = shrink(src, info, 'missing')
+            if small is not None:
+                res2 = analyse_source(small)
+                res2['features'] = []
+                res2['shrunk_from'] = src
+                out.append(res2)
     return out
 
 
@@ -167,6 +227,9 @@ def judge(ctx, res, origin):
         else:
             shape = 'flow:' + shape_of(src, rec['line'], kind)
         case = {'source': src, 'line': rec['line'], 'column': rec['column'], 'shape': shape, 'origin': origin}
+        if res.get('shrunk_from'):
+            case['origin'] = origin + ' (shrunk)'
+            case['shrunk_from'] = res['shrunk_from']
         failed = ctx.fail('flow', what, case, expected=expected, observed=rec['jedi'], how=HOW) or failed
     return failed
 
@@ -202,8 +265,15 @@ def finish(ctx, h):
     nprog = 0
     for item, res in zip(h['items'], h['corpus'].result()):
         judge(ctx, res, 'corpus:' + str(item['name']))
-    for group in h['gen'].result():
+    groups = h['gen'].result()
+    for group in groups:
         for res in group:
+            if res.get('shrunk_from'):
+                judge(ctx, res, 'generated')
+    for group in groups:
+        for res in group:
+            if res.get('shrunk_from'):
+                continue
             nprog += 1
             for f in res.get('features', []):
                 feats[f] = feats.get(f, 0) + 1
